@@ -609,12 +609,12 @@ func init() {
 			for i := 0; i < 12; i++ {
 				s := d.NewSpec("hostile", fmt.Sprintf("hostile-%d", i), i, 12)
 				s.N = d.Pick(1700, 20000)
-				s.TimeoutS = int(d.Pick(900, 7200))
+				s.TimeoutS = int(d.Pick(400, 7200))
 				specs = append(specs, s)
 			}
 			for i := 0; i < 4; i++ {
 				s := d.NewSpec("big", fmt.Sprintf("big-%d", i), i, 4)
-				s.TimeoutS = int(d.Pick(900, 3600))
+				s.TimeoutS = int(d.Pick(400, 3600))
 				specs = append(specs, s)
 			}
 			for i := 0; i < 8; i++ {
